@@ -140,3 +140,22 @@ Example C20_pat_first_needed :
   calls full_parsers None no_skip cs (with_pm (init_dstate ex_reader 188) [256]) <>
   calls full_parsers None no_skip cs (init_dstate ex_reader 188).
 Proof. intros cs H. apply (f_equal (map (@is_ok _))) in H. vm_compute in H. discriminate. Qed.
+
+(* ---- rewind IS the source ----
+   Gen/DemuxGen.v (Section Demuxer) is translated from the current /repo/demuxer.go on every run
+   (go/gen/demuxgen.go).  The model's rewind, about which every theorem above speaks, is the regenerated
+   Demuxer.Rewind with its abstract operations instantiated by the model (Proofs/DemuxGenEq.v: the world = reader,
+   program map and ghost logs; newPacketPool = a fresh empty pool; rewind(r) = rewind_reader): same data buffer, no
+   packet buffer, same pool, same offset, no error, same world — whatever packet buffer, packets parser and skipper the
+   Demuxer held.  A Rewind that no longer recreates the pool, keeps the data buffer, forgets the program map or calls
+   anything else breaks this proof; no generated case has to reach the difference. *)
+Require Import Gen.DemuxGen Proofs.DemuxGenEq Proofs.DemuxGenEqRewind.
+
+Theorem C20_rewind_is_source : forall s pb prs sk,
+  Demuxer_Rewind mworld unit unit gpb pool unit unit new_pool_m rewind_m
+    tt (d_buffer s) tt (d_opt_size s) prs sk pb (d_pool s) tt tt (world_of s) =
+  Done (d_buffer (snd (Demux.rewind s)), @None gpb, d_pool (snd (Demux.rewind s)), fst (Demux.rewind s), @None gerr,
+        world_of (snd (Demux.rewind s))) /\
+  d_pb (snd (Demux.rewind s)) = None /\ d_opt_size (snd (Demux.rewind s)) = d_opt_size s.
+Proof. exact rewind_is_generated. Qed.
+Print Assumptions C20_rewind_is_source.
